@@ -92,7 +92,55 @@ def extract():
         t.setdefault("decoderTags", [])
         t.setdefault("readerPhases", [])
 
+    # space.py: order of the namespace chain and of the reference chains (C12)
+    try:
+        t.update(_namespace_tables(_parse("modelx/core/space.py")))
+    except Exception as e:
+        problems.append("space.py namespace chain orders not found: %r" % e)
+        for k in ("namespaceOrder", "userRefsOrder", "dynRefsOrder"):
+            t.setdefault(k, [])
+
     return t, problems
+
+
+def _attr_name(e):
+    """self._own_refs -> own_refs ; self.model._global_refs -> global_refs ; *self._allargs.maps -> allargs"""
+    if isinstance(e, ast.Starred):
+        e = e.value
+        if isinstance(e, ast.Attribute) and e.attr == "maps":
+            e = e.value
+    if isinstance(e, ast.Attribute):
+        return e.attr.lstrip("_")
+    raise ValueError(ast.dump(e))
+
+
+def _namespace_tables(tree):
+    t = {}
+    base = _class(tree, "BaseSpaceImpl")
+    init = _method(base, "__init__")
+    order = None
+    for node in ast.walk(init):
+        if isinstance(node, ast.Call) and getattr(node.func, "id", "") == "ImplChainMap":
+            for kw in node.keywords:
+                if kw.arg == "map_ids":
+                    order = [e.value for e in kw.value.elts]
+                    maps = [_attr_name(e) for e in node.args[3].elts]
+                    if maps != [{"cells": "cells", "refs": "refs", "spaces": "named_spaces"}[o] for o in order]:
+                        raise ValueError("namespace maps %s do not match map_ids %s" % (maps, order))
+    if order is None:
+        raise ValueError("namespace ImplChainMap not found")
+    t["namespaceOrder"] = order
+
+    def refs_order(clsname):
+        m = _method(_class(tree, clsname), "_init_refs")
+        for node in ast.walk(m):
+            if isinstance(node, ast.Call) and getattr(node.func, "id", "") in ("RefChainMap", "ImplChainMap") \
+                    and node.args and isinstance(node.args[0], ast.Constant) and node.args[0].value == "refs":
+                return [_attr_name(e) for e in node.args[3].elts]
+        raise ValueError(clsname + "._init_refs")
+    t["userRefsOrder"] = refs_order("UserSpaceImpl")
+    t["dynRefsOrder"] = refs_order("DynamicSpaceImpl")
+    return t
 
 
 def _class_list(tree, clsname, attr):
@@ -214,6 +262,12 @@ def render(t):
         "def pythonKeywords : List String := " + _lean_str_list(t["pythonKeywords"]),
         "def defaultMaxBackups : Nat := %d" % t["defaultMaxBackups"],
         "def defaultMaxdepth : Nat := %d" % t["defaultMaxdepth"],
+        "/-- space.py: the maps of a space's namespace, first match wins -/",
+        "def namespaceOrder : List String := " + _lean_str_list(t["namespaceOrder"]),
+        "/-- UserSpaceImpl._init_refs: the maps of `refs`, first match wins -/",
+        "def userRefsOrder : List String := " + _lean_str_list(t["userRefsOrder"]),
+        "/-- DynamicSpaceImpl._init_refs -/",
+        "def dynRefsOrder : List String := " + _lean_str_list(t["dynRefsOrder"]),
         "/-- serializer_6.py: EncoderSelector.classes, in selection order -/",
         "def encoderClasses : List String := " + _lean_str_list(t["encoderClasses"]),
         "/-- DecoderSelector.classes, in selection order -/",
